@@ -277,8 +277,68 @@ func C16label(p *load.Program, run *report.Run) {
 					if !ok || c.Call.StaticCallee() == nil || c.Call.StaticCallee() == fn || decider[c.Call.StaticCallee()] == 0 || checkedCalls[c] {
 						continue
 					}
+					if tabled[fn] != nil {
+						// the three-case evaluation of fn has followed this call and what fn does with its verdict
+						continue
+					}
 					callee := c.Call.StaticCallee()
 					res := callee.Signature.Results()
+					if tabled[callee] != nil && tabled[callee].sticky != "" {
+						// the verdict is left in an error field of the receiver: the caller has to look at that
+						// field, and leave with an error when it is set, before it can return success
+						checkedCalls[c] = true
+						run.Count("label-check-callers", 1)
+						key := fn.Pkg.Pkg.Name() + "." + fn.Name() + "/" + callee.Name()
+						var checks []*ssa.BasicBlock
+						for _, h := range fn.Blocks {
+							iff, ok := h.Instrs[len(h.Instrs)-1].(*ssa.If)
+							if !ok {
+								continue
+							}
+							bo, ok := iff.Cond.(*ssa.BinOp)
+							if !ok || (bo.Op != token.NEQ && bo.Op != token.EQL) {
+								continue
+							}
+							ld, ok := bo.X.(*ssa.UnOp)
+							if !ok || ld.Op != token.MUL {
+								continue
+							}
+							fa, ok := ld.X.(*ssa.FieldAddr)
+							if !ok || structFieldName(fa.X.Type(), fa.Field) != tabled[callee].sticky {
+								continue
+							}
+							eb := h.Succs[0]
+							if bo.Op == token.EQL {
+								eb = h.Succs[1]
+							}
+							if errorExit(eb) && (h == b || blockReaches(b, h)) {
+								checks = append(checks, h)
+							}
+						}
+						okAll := len(checks) > 0
+						for _, sb := range successBlocks(fn) {
+							if !(sb == b || blockReaches(b, sb)) {
+								continue
+							}
+							dom := false
+							for _, h := range checks {
+								if h.Dominates(sb) {
+									dom = true
+								}
+							}
+							if !dom {
+								okAll = false
+							}
+						}
+						if okAll {
+							decider[fn]++
+							grew = true
+							run.OK("unknown-label-rejected", key, p.Rel(c.Pos()), "the recorded error is tested, and ends the function, before any success return")
+						} else {
+							run.Violate("unknown-label-rejected", key, p.Rel(c.Pos()), callee.Name()+" leaves its verdict in the field "+tabled[callee].sticky+", which this function does not test (with an error return) on every path to success", nil)
+						}
+						continue
+					}
 					boolOK := tabled[callee] != nil && tabled[callee].boolOK
 					if res.Len() == 0 || (res.At(res.Len()-1).Type().String() != "error" && !boolOK) {
 						continue
